@@ -409,7 +409,8 @@ def run(pid, tier, seed):
     exhaustive = True
     samples = []
     # (deviation bound, closure depth after a deviation [None = fixpoint], state cap, wall cap)
-    plan = {"quick": {"module": (1, None, 4000, 60), "component": (1, 2, 4000, 90)},
+    # (the wall caps are safety nets far above the normal running time: what is explored must not depend on machine load)
+    plan = {"quick": {"module": (1, None, 4000, 900), "component": (1, 2, 4000, 900)},
             "thorough": {"module": (3, None, 60000, 1500), "component": (2, None, 60000, 3000)}}[tier]
     for mode in ("module", "component"):
         ex = Explorer(mode, tier)
